@@ -740,9 +740,74 @@ def run(ctx):
         except Violation as violation:
             ctx.record_violation(violation, case)
     ctx.hyp(strategy(w), body, ctx.budget(2000, 60000), name="cmdline")
+    run_composite_part(ctx)
+
+
+# ---------------------------------------------------------------------------
+# overrides reach every parsed test: also the composite (graph) nodes and their setup, and also for keys that the
+# user's overwrite configuration touches
+
+COMPOSITE_KEYS = ["original_test_data_path", "control_file", "additional_deployment_dir", "other_tests_dirs",
+                  "file_contents", "kill_timeout", "verif_fresh_key", "test_timeout", "host_dhcp_service"]
+COMPOSITE_SELECTIONS = ["normal..tutorial1", "minimal..tutorial2", "leaves..tutorial3", "normal..tutorial_gui..client_noop"]
+
+
+def composite_strategy():
+    from hypothesis import strategies as st
+
+    value = st.sampled_from(["/srv/testdata/", "custom", "a,b", "42", "x y", "/opt/dir/"])
+    return st.fixed_dictionaries({
+        "part": st.just("composite"),
+        "selection": st.sampled_from(COMPOSITE_SELECTIONS),
+        "overrides": st.lists(st.tuples(st.sampled_from(COMPOSITE_KEYS), value), min_size=1, max_size=3,
+                              unique_by=lambda t: t[0]),
+        "nets": st.sampled_from(["net1", "net1 net2"]),
+    })
+
+
+def check_composite(case):
+    from vlib import sim as simmod
+
+    mods = simmod.setup()
+    from avocado_i2n import cmd_parser
+
+    params = ["only=" + case["selection"], "nets=" + case["nets"].replace(" ", ",")]
+    params += [f"{k}={v}" for k, v in case["overrides"]]
+    config = {"params": params}
+    cmd_parser.params_from_cmd(config)
+    graph = mods["TestGraph"].parse_object_trees(None, config["tests_str"], "", dict(config["vm_strs"]),
+                                                 dict(config["param_dict"]))
+    nodes = [n for n in graph.nodes if not n.is_shared_root()]
+    for key, value in case["overrides"]:
+        expected = value.replace(",", " ")
+        for node in nodes:
+            got = node.params.get(key)
+            if got != expected:
+                kind = "setup" if "internal" in node.params["name"] or "original" in node.params["name"] else "selected"
+                raise Violation({"oracle": "override-not-in-composite-node", "node": kind},
+                                f"{key}={value!r} on the command line, but {node.params['shortname'][:70]} has {key}={got!r}", case)
+    return len(nodes)
+
+
+def run_composite_part(ctx):
+    def body(case):
+        count = check_composite(case)
+        ctx.case(case, True, ["composite", f"composite:nodes<={(count // 5 + 1) * 5}"])
+
+    ctx.hyp(composite_strategy(), body, ctx.budget(64, 2000), name="composite", shrink=(ctx.tier == "thorough"))
 
 
 def replay(ctx, case):
+    if isinstance(case, dict) and case.get("part") == "composite":
+        try:
+            check_composite(case)
+        except Violation as violation:
+            return [violation]
+        return []
+    return _replay_cmdline(ctx, case)
+
+
+def _replay_cmdline(ctx, case):
     try:
         check(case, load())
     except Violation as violation:
